@@ -201,7 +201,9 @@ PROPS = {
                 # the actor traces carry the wire-level response (seconds); replaying the proc log on a fresh library limiter checks the conversion
                 tags_by_mode={"actor": ["C09"], "conn": ["C10", "C13"]},
                 rule="cmd: RESP commands (bulk vs :int arguments, any name case, arity 4..7, non-numeric / overflow arguments) through the real per-command handler with a real actor, the request the actor saw and the reply compared with the model's plan/finish; wire: each logical request routed to a random protocol/encoding over loopback sockets, wire answer compared field by field with what the actor log says the library decided"),
-    "C13": dict(runs=[("server", "resp", dict(quick=900, thorough=200000)), ("server", "conn", dict(quick=60, thorough=500))], proj=proj_server, tags=["C13"],
+    "C13": dict(runs=[("server", "resp", dict(quick=900, thorough=200000)), ("server", "conn", dict(quick=60, thorough=500)), ("server", "binary", dict(quick=20, thorough=60))], proj=proj_server, tags=["C13"],
+                # deeply nested frames against the real process (release AND unoptimised build): a decoder that dies takes the process with it
+                tags_by_mode={"binary": ["C11"]},
                 rule="resp: ALL byte strings up to length 5 (thorough 6) over the 13-symbol protocol alphabet + grammar-generated frames with mutations and hostile headers through the real RespParser vs the model; prefix-stability / bounds / depth-restored asserted on the real parser; conn: real TCP, same stream under several chunkings incl. 1-byte chunks"),
     "C14": dict(runs=[("server", "resp", dict(quick=900, thorough=99999)), ("server", "cmd", dict(quick=400, thorough=10000)), ("server", "conn", dict(quick=60, thorough=500))], proj=proj_server, tags=["C14"],
                 # the reply stream of a real connection must stay in step with the command stream
@@ -431,6 +433,13 @@ def build_all(profiles=("release",)):
             if rc != 0:
                 return False, "cargo build of the server binary from the working tree failed:\n" + out[-3000:]
             ENV["TCV_SERVER_BIN"] = os.path.join(tdir, "release", "throttlecrab-server")
+            # ... and an unoptimised build (what `cargo run` / `cargo test` use): stack use per recursion level, debug
+            # assertions and overflow checks differ; one extra instance of the binary mode runs against it
+            rc, out = sh(["cargo", "build", "--offline", "-q", "-p", "throttlecrab-server", "--bin", "throttlecrab-server",
+                          "--manifest-path", os.path.join(REPO, "Cargo.toml"), "--target-dir", tdir], timeout=3000)
+            if rc != 0:
+                return False, "cargo build (debug) of the server binary from the working tree failed:\n" + out[-3000:]
+            ENV["TCV_SERVER_BIN_DEBUG"] = os.path.join(tdir, "debug", "throttlecrab-server")
         for prof in profiles:
             if prof == "stdhash":
                 # the library without its default `ahash` feature (std HashMap / SipHash): tcv-core alone, own target dir
